@@ -118,6 +118,18 @@ func processUserMacro(exp Exporter, m *uMacroDefInfo) {
 		return
 	}
 	ctx.uMacroCall.count++
+	// Nor arguments that grow at each level (a macro passing \$1\$1 to
+	// itself doubles them)
+	size := 0
+	for _, arg := range ctx.Args {
+		size += len(arg)
+	}
+	if size > maxMacroArgsSize {
+		if ctx.Process {
+			ctx.Error("recursive macro: arguments too large (infinite recursive calls?)")
+		}
+		return
+	}
 
 	// curBlock: user defined macro
 	if !ctx.Process {
